@@ -688,6 +688,12 @@ func (x *VC) applyContract(callee *ssa.Function, c *Contract, key string, sig *t
 		}
 		x.refuse("specification calls %s whose contract has no `ensures result == E` clause", key)
 	}
+	var before *Oblig
+	if len(c.Ensures)+len(c.Assumed) > 0 && x.specMode == 0 {
+		if before = x.addObl("cover:before-call", key, pos, reach, "true"); before != nil {
+			before.Expect = "sat"
+		}
+	}
 	for _, r := range c.Requires {
 		cond := x.evalSpec(r.E, env)
 		lbl := r.Label
@@ -701,8 +707,9 @@ func (x *VC) applyContract(callee *ssa.Function, c *Contract, key string, sig *t
 	// havoc
 	if c.ModAll {
 		x.havocAll(st)
-	} else {
-		if !c.Pure {
+	}
+	{
+		if !c.Pure && !c.ModAll {
 			x.havocComp(st, x.allocComp()) // any callee may allocate (monotone)
 		}
 		for _, m := range c.Modifies {
@@ -729,6 +736,57 @@ func (x *VC) applyContract(callee *ssa.Function, c *Contract, key string, sig *t
 			}
 		}
 	}
+	if c.ModAll {
+		// `modifies *` spares ghost state; ghost state the postconditions talk about is what the callee changes
+		seen := map[string]bool{}
+		var walk func(e *SExpr)
+		walk = func(e *SExpr) {
+			if e == nil {
+				return
+			}
+			if e.Op == "sel" && len(e.Args) == 1 && e.Args[0].Op == "id" && e.Args[0].Name == "G" && !seen["G."+e.Name] {
+				seen["G."+e.Name] = true
+				x.havocComp(st, x.ghostGlobal(e.Name))
+			}
+			if e.Op == "call" && e.Args[0].Op == "id" {
+				switch e.Args[0].Name {
+				case "sent":
+					if !seen["sent"] {
+						seen["sent"] = true
+						x.havocComp(st, x.comp("G|chan.sent", "Int", "Int"))
+					}
+				case "received", "lastReceived":
+					if !seen["recv"] {
+						seen["recv"] = true
+						x.havocComp(st, x.comp("G|chan.recvs", "", "Int"))
+						x.havocComp(st, x.comp("G|chan.lastRecv", "", "Int"))
+					}
+				case "spawned":
+					if len(e.Args) > 1 && e.Args[1].Op == "str" && !seen["sp:"+e.Args[1].Name] {
+						seen["sp:"+e.Args[1].Name] = true
+						x.havocComp(st, x.comp("G|spawned:"+e.Args[1].Name, "", "Int"))
+					}
+				}
+			}
+			for _, a := range e.Args {
+				walk(a)
+			}
+		}
+		for _, cl := range c.Ensures {
+			if !cl.Local {
+				walk(cl.E)
+			}
+		}
+		for _, cl := range c.Assumed {
+			walk(cl.E)
+		}
+	}
+	// ghost globals assigned at the callee's exit change even under `modifies *` (which spares ghost state)
+	for _, g := range c.GhostEx {
+		if g.LHS.Op == "sel" && g.LHS.Args[0].Op == "id" && g.LHS.Args[0].Name == "G" {
+			x.havocComp(st, x.ghostGlobal(g.LHS.Name))
+		}
+	}
 	var res []*Val
 	for i := 0; i < sig.Results().Len(); i++ {
 		rt := sig.Results().At(i).Type()
@@ -744,6 +802,9 @@ func (x *VC) applyContract(callee *ssa.Function, c *Contract, key string, sig *t
 		env2.fn = callee
 	}
 	for _, e := range c.Ensures {
+		if e.Local {
+			continue
+		}
 		cond := x.evalSpec(e.E, env2)
 		x.assume(reach, cond.T)
 	}
@@ -754,8 +815,9 @@ func (x *VC) applyContract(callee *ssa.Function, c *Contract, key string, sig *t
 	}
 	// vacuity guard: the assumed postcondition must not contradict what is known at this point
 	if len(c.Ensures) > 0 && x.specMode == 0 {
-		if o := x.addObl("cover:after-call", key, pos, "true", "true"); o != nil {
+		if o := x.addObl("cover:after-call", key, pos, reach, "true"); o != nil {
 			o.Expect = "sat"
+			o.Before = before
 		}
 	}
 	return res
